@@ -303,6 +303,52 @@ def _xlift_events(args):
     return ev
 
 
+def _pseq_events(args):
+    """a level declared as Parent(sequence=S, parent=P) where the Sequence S itself names the level above WITHOUT a
+    placement and the explicit parent P carries the placement: lifts go through P (judged as ordinary `lift` events)"""
+    seed, n, G = args
+    setup_repo_import()
+    from inscripta.biocantor.parent import Parent
+    from inscripta.biocantor.sequence import Sequence
+    from inscripta.biocantor.sequence.alphabet import Alphabet
+
+    rnd = random.Random(seed)
+    ev = []
+    for _ in range(n):
+        root = "".join(rnd.choice("ACGTacgtN") for _ in range(G))
+        P0 = _rand_clean_loc(rnd, G, 3)
+        sub = extract_py(P0[0], P0[1], root)
+        if len(sub) < 1:
+            continue
+        child = _rand_clean_loc(rnd, len(sub), 2)
+        types = ["chromosome", rnd.choice(["contig", "mrna"])]
+        try:
+            top_bare = Parent(id="L0", sequence_type=types[0], sequence=Sequence(root, Alphabet.NT_EXTENDED, id="L0", type=types[0]))
+            top_placed = Parent(id="L0", sequence_type=types[0], sequence=Sequence(root, Alphabet.NT_EXTENDED, id="L0", type=types[0]),
+                                location=E.make_loc(P0[0], P0[1]))
+            S = Sequence(sub, Alphabet.NT_EXTENDED, id="L1", type=types[1], parent=top_bare)
+            level = Parent(id="L1", sequence_type=types[1], sequence=S, parent=top_placed)
+            c = E.make_loc(child[0], child[1], level)
+        except Exception:
+            continue
+
+        def val(fn):
+            def enc(r):
+                try:
+                    sq = list(str(r.extract_sequence()))
+                except Exception as ex2:
+                    sq = "!" + type(ex2).__name__
+                return (E.loc(r), E.pid(r), sq)
+            return E.outcome(fn, enc)
+
+        ask = sorted(set(types + ["zzz"]))
+        by_type = [[t, val(lambda t=t: c.lift_over_to_first_ancestor_of_type(t))] for t in ask]
+        has_t = [[t, bool(c.has_ancestor_of_type(t))] for t in ask]
+        one = val(lambda: c.parent.lift_child_location_to_parent())
+        ev.append(["lift", types, list(root), True, [list(P0)], list(child), by_type, [], has_t, one, 0, []])
+    return ev
+
+
 def _nested_chunk_events(args):
     """A location that lives one or two coordinate systems BELOW a sequence chunk (child -> region [-> sub-region] ->
     chunk A -> chromosome) is moved with the public static liftover_location_to_seq_chunk_parent onto another chunk B
@@ -393,6 +439,8 @@ def run(chk):
     if quick:
         locs = E.enum_locs(5, 3) + rnd.sample(locs, 1000)
     parts = pmap(_chunk_events, [(locs[i::64], G if not quick else 8, chk.seed * 409 + i) for i in range(64)])
+    evs += [e for p in parts for e in p]
+    parts = pmap(_pseq_events, [(chk.seed * 439 + i, 40 if quick else 800, rnd.choice([10, 14])) for i in range(16)])
     evs += [e for p in parts for e in p]
     xl = rnd.sample(locs, min(len(locs), 400 if quick else 6000))
     parts = pmap(_xlift_events, [(xl[i::16], G if not quick else 8, chk.seed * 431 + i) for i in range(16)])
